@@ -2,8 +2,11 @@
 
     Only statements here; proofs live in Proofs/KeyRegistry.v.  [valid_at t b] = the lifetime of
     [b] contains the clock reading [t] (both ends strict) and its signature verifies.  The model
-    is the registry *after* the repair `fix: skip expired one-time key bundles`; the behaviour
-    before the repair is [get_onetime_asis]. *)
+    is the registry *after* the repairs `fix: skip expired one-time key bundles` and `fix:
+    latest_key_bundle verifies the whole key bundle`; the behaviour before them is
+    [get_onetime_asis] / [get_longterm_asis].  A registry state [y : reg] is ANY pair of
+    association lists member -> list of bundles: nothing is assumed about how it came to be
+    (built by [add_*], restored from persistence, left behind by a clock change). *)
 From Coq Require Import List NArith.
 From PV Require Import Model.KeyRegistry Proofs.KeyRegistry Oracle.C38 Proofs.OracleC38.
 Import ListNotations.
@@ -28,19 +31,50 @@ Theorem C38_rejected_not_stored :
 Proof. exact rejected_not_stored. Qed.
 Print Assumptions C38_rejected_not_stored.
 
-(** For every sequence of add / get / remove_expired operations with arbitrary clock readings
-    (time may pass between any two of them): whatever is accepted is valid when accepted, and
-    whatever [key_bundle] returns — one-time or long-term — is valid when returned. *)
+(** For ANY registry state [y] and every sequence of add / get / remove_expired / restore
+    (a member's list replaced by an arbitrary one) operations with arbitrary clock readings
+    (time may pass, or jump, between any two of them): whatever is accepted is valid when
+    accepted, and whatever [key_bundle] returns — one-time or long-term — is valid (lifetime and
+    signature) when returned. *)
 Theorem C38_never_accept_or_return_invalid :
-  forall ops : list op, Forall2 answer_ok ops (snd (run get_onetime init ops)).
+  forall (y : reg) (ops : list op), Forall2 answer_ok ops (snd (run get_onetime y ops)).
 Proof. exact never_accept_or_return_invalid. Qed.
 Print Assumptions C38_never_accept_or_return_invalid.
+
+(** The getters over arbitrary stored lists: for any stored state whatsoever and any time [t],
+    whatever [key_bundle] returns for a member is valid at [t] — lifetime and signature. *)
+Theorem C38_get_valid_from_any_state :
+  forall (t : N) (y : reg) (i : N) (b : bundle),
+    (snd (get_onetime t y i) = Got (Some b) -> valid_at t b = true) /\
+    (snd (get_longterm t y i) = Got (Some b) -> valid_at t b = true).
+Proof. exact get_valid_from_any_state. Qed.
+Print Assumptions C38_get_valid_from_any_state.
+
+(** ... and it is one of the bundles stored for that member. *)
+Theorem C38_get_returns_stored :
+  forall (t : N) (y : reg) (i : N) (b : bundle),
+    (snd (get_onetime t y i) = Got (Some b) -> In b (stored (onetime y) i)) /\
+    (snd (get_longterm t y i) = Got (Some b) -> In b (stored (longterm y) i)).
+Proof. exact get_returns_stored. Qed.
+Print Assumptions C38_get_returns_stored.
+
+(** Registering a long-term bundle that is already stored for the member (a replayed key-bundle
+    message): it is accepted only if it is valid at that time; if it is, the registry stays as
+    it was (idempotent); if it is not — e.g. it expired meanwhile — it is rejected. *)
+Theorem C38_readd_requires_valid :
+  forall (t : N) (y : reg) (i : N) (b : bundle),
+    In b (stored (longterm y) i) ->
+    (snd (add_longterm t y i b) = Accepted -> valid_at t b = true) /\
+    (valid_at t b = true -> add_longterm t y i b = (y, Accepted)) /\
+    (valid_at t b = false -> exists e, add_longterm t y i b = (y, Rejected e)).
+Proof. exact readd_requires_valid. Qed.
+Print Assumptions C38_readd_requires_valid.
 
 (** The long-term answer is the currently valid bundle with the furthest expiry. *)
 Theorem C38_longterm_is_furthest :
   forall t y i b l x,
     lookup (longterm y) i = Some l -> snd (get_longterm t y i) = Got (Some b) ->
-    In x l -> life_ok t x = true -> na x <= na b.
+    In x l -> valid_at t x = true -> na x <= na b.
 Proof. exact longterm_is_furthest. Qed.
 Print Assumptions C38_longterm_is_furthest.
 
@@ -51,11 +85,27 @@ Theorem C38_never_return_invalid_before_fix_refuted :
 Proof. exact asis_refuted. Qed.
 Print Assumptions C38_never_return_invalid_before_fix_refuted.
 
+(** The code as found re-checked only the lifetime on the long-term path: a restored state
+    holding a bundle whose signature does not verify handed it out ... *)
+Theorem C38_longterm_from_any_state_before_fix_refuted :
+  ~ (forall t y i b, snd (get_longterm_asis t y i) = Got (Some b) -> valid_at t b = true).
+Proof. exact asis_longterm_refuted. Qed.
+Print Assumptions C38_longterm_from_any_state_before_fix_refuted.
+
+(** ... and only then: with verifying signatures stored (every state built by [add_*]) the
+    answer was valid before the repair too. *)
+Theorem C38_longterm_before_fix_outside_known :
+  forall t y i b,
+    (forall x, In x (stored (longterm y) i) -> sig_ok x = true) ->
+    snd (get_longterm_asis t y i) = Got (Some b) -> valid_at t b = true.
+Proof. exact asis_longterm_outside_known. Qed.
+Print Assumptions C38_longterm_before_fix_outside_known.
+
 (** Soundness of the boolean oracle: accepted observations satisfy the per-answer demand
     (accepted => valid then; returned => the implementation's own verify() succeeded and the
     bundle is valid by the clock arithmetic). *)
 Theorem C38_oracle_sound :
-  forall pool ops os acc ret,
-    check_all pool acc ret ops os = true -> Forall2 (obs_ok pool) ops os.
+  forall pool ops os acc,
+    check_all pool acc ops os = true -> Forall2 (obs_ok pool) ops os.
 Proof. exact check_sound. Qed.
 Print Assumptions C38_oracle_sound.
